@@ -290,6 +290,8 @@ def _verify_sess(case, r, label):
         bump = 0 if name == 'sma' else 1
         for a in s.assets:
             full = [p for _, p in series[a]]
+            if any(p != p for p in full):
+                continue            # a watched asset without quotes at first: what it is fed on those days is not stated
             if len(full) < len(days):
                 late = True
             for lb in cfg['signals'][name]:
@@ -304,7 +306,7 @@ def _verify_sess(case, r, label):
     for dt, vals in r.alpha.probes:
         for (name, a, lb), got in vals.items():
             h = [p for t, p in series.get(a, []) if t <= dt]
-            if not h:
+            if not h or any(p != p for p in h):
                 continue
             if got == 'no_buffer':
                 raise Violation('at %s the %s signal has no buffer for member %s' % (dt, name, a))
@@ -345,7 +347,10 @@ def sessions(draw):
     if a['kind'] == 'invvol' and a['lookback'] not in sig['vol']:
         sig['vol'].append(a['lookback'])
     cfg['signals'] = sig
-    if a['kind'] == 'fixed' and cfg['universe']['kind'] == 'dynamic' and draw(st.booleans()):
+    if a['kind'] == 'fixed' and draw(st.sampled_from([False, False, True])) and sessgen.add_watched(
+            draw, cfg, mk, names, d0, n, seed):
+        lab = lab + ['watched_symbol_without_quotes_at_first']
+    elif a['kind'] == 'fixed' and cfg['universe']['kind'] == 'dynamic' and draw(st.booleans()):
         # the signals watch every symbol from the start, whatever the traded universe contains at the time
         cfg['signal_universe'] = {'kind': 'static', 'assets': ['EQ:' + s for s in names]}
         lab = lab + ['signals_watch_a_wider_universe']
